@@ -155,11 +155,23 @@ def native_crash_v2(vals, byte_at, patches):
     f.reads = f0.reads
     try:
         # as in store_tiles: the handle comes from the real _readwrite() (existing bundle file)
+        import contextlib
+        from props.C19_bundle import _STile
         C.__dict__['open'] = lambda name, mode='r': f
-        b.filename = '/b/R0000C0000.bundle'
+        b.filename, b.lock_filename = '/b/R0000C0000.bundle', '/b/R0000C0000.lck'
+        b.file_permissions = b.directory_permissions = None
         b._init_index = lambda: None
-        with b._readwrite() as fh:
-            b._store_tile(fh, (x, y, 0), bytes(payload))
+
+        @contextlib.contextmanager
+        def lock(*a_, **kw):
+            yield
+        C.FileLock = lock
+
+        @contextlib.contextmanager
+        def tile_buffer(tile):
+            yield type('Buf', (), {'read': staticmethod(lambda: tile.source)})()
+        C.tile_buffer = tile_buffer
+        b.store_tiles([_STile((x, y, 0), bytes(payload))])      # the real public method, as in the symbolic run
         f._flush()
     except Exception as e:
         return True, 'real code raised %s: %s' % (type(e).__name__, e), f
